@@ -157,6 +157,21 @@ def run(repo, R):
             "the screening test does not dominate the computation", where=ker.where(st))
     # ---------------------------------------------------------------- wrapper dispatch
     check_wrapper_dispatch(repo, wrap, R, "DISPATCH")
+    # the tolerance reaches the predicate as given: no function on the way replaces it (e.g. switches screening off for a
+    # whole basis on the strength of a global test)
+    from ..formula import rebound_inputs, classify_rebinding
+    for g, tolname in ((wrap, "tol_screen"), (ker, ktol), (scr, ptol)):
+        if tolname not in g.params:
+            continue
+        rebound, syms = rebound_inputs(g, {tolname}, rule="KEEP")
+        for name, val, st in rebound:
+            kind = classify_rebinding(val, syms[name])
+            if kind == "unknown":
+                raise AnalysisError("KEEP", f"`{ast.unparse(st)[:80]}` rebinds the tolerance to a value that is not modelled", g.where(st))
+            R.check(kind == "same", "KEEP", g.site, "tolerance unmodified: " + ast.unparse(st)[:60],
+                    f"`{name}` is replaced on some path before the pairwise screening decision: which blocks are zeroed would no longer "
+                    "be decided per shell pair by the given tolerance", where=g.where(st), expected=f"{name} passed on as given", found=str(val)[:80])
+        R.ok("KEEP", g.site, f"{tolname} reaches the next stage as given")
     R.assumptions += ["assembly forwards **kwargs to the kernel on every path (decided under C09, rule A1)",
                       "kept blocks depend only on their own two shells (C11, rule G1)"]
     return ("FORMULA + FLOW on is_integral_screened, Overlap.construct_array_contraction and overlap_integral: the cutoff expression "
